@@ -19,11 +19,12 @@ theorem orient_get (rev perm : List Nat) (p : Seg) (idx : Idx) :
     ((Seg.orient rev perm p).full L F).get idx = (p.full L F).get (rawIdx (p.full L F).shape rev (invPerm perm) idx) := rfl
 
 theorem cplx_get (iq : Bool) (rev perm : List Nat) (p : Seg) (idx : Idx) :
-    ((Seg.cplx iq rev perm 2 p).full L F).get idx =
+    ((Seg.cplx (ordOf iq) rev perm 2 p).full L F).get idx =
       if iq then Pairing.pair ((p.full L F).get (rawIdx (p.full L F).shape rev (invPerm perm) (insAx 2 0 idx)))
                               ((p.full L F).get (rawIdx (p.full L F).shape rev (invPerm perm) (insAx 2 1 idx)))
       else Pairing.pair ((p.full L F).get (rawIdx (p.full L F).shape rev (invPerm perm) (insAx 2 1 idx)))
-                        ((p.full L F).get (rawIdx (p.full L F).shape rev (invPerm perm) (insAx 2 0 idx))) := rfl
+                        ((p.full L F).get (rawIdx (p.full L F).shape rev (invPerm perm) (insAx 2 0 idx))) := by
+  cases iq <;> rfl
 
 end
 
